@@ -1086,7 +1086,10 @@ func tmxScenarios(c *ctx) []*tmxScn {
 					s.cols = 60 + c.rng.Intn(120)
 					s.rows = 20 + c.rng.Intn(30)
 					if topo != "control" && c.rng.Intn(2) == 0 {
-						s.narrow = 12 + c.rng.Intn(30)
+						// not narrower than the head of the trigger line ("::TRZSZ:TRANSFER:S:1.1.8", 24 columns): tmux wraps
+						// what trz/tsz (or the relay) print into the pane, and a wrapped marker is no trigger for
+						// the client; between 25 and 47 columns the id and the port are cut off at the wrap
+						s.narrow = 26 + c.rng.Intn(20)
 					}
 					s.status = c.rng.Intn(2) == 0
 					s.sync = c.rng.Intn(2) == 0
